@@ -133,6 +133,44 @@ pub(crate) mod prelude {
                 self.current -= 1;
             }
         }
+
+        fn enter_by(&mut self, _depth: usize) -> Result<(), super::error::CustomError> {
+            #[cfg(not(feature = "unbounded"))]
+            {
+                self.current += _depth;
+                if LIMIT <= self.current {
+                    return Err(super::error::CustomError::RecursionLimitExceeded);
+                }
+            }
+            Ok(())
+        }
+
+        fn exit_by(&mut self, _depth: usize) {
+            #[cfg(not(feature = "unbounded"))]
+            {
+                self.current -= _depth;
+            }
+        }
+    }
+
+    /// Account for the tables a dotted key nests its value in
+    ///
+    /// Each key segment before the last one puts the value one table deeper, so it has to count
+    /// towards the recursion limit just like arrays and inline tables do.
+    pub(crate) fn check_dotted_recursion<'b, O>(
+        key_len: usize,
+        mut parser: impl ModalParser<Input<'b>, O, ContextError>,
+    ) -> impl ModalParser<Input<'b>, O, ContextError> {
+        let depth = key_len.saturating_sub(1);
+        move |input: &mut Input<'b>| {
+            input
+                .state
+                .enter_by(depth)
+                .map_err(|err| winnow::error::ErrMode::from_external_error(input, err).cut())?;
+            let result = parser.parse_next(input);
+            input.state.exit_by(depth);
+            result
+        }
     }
 
     pub(crate) fn check_recursion<'b, O>(
